@@ -65,7 +65,9 @@ def load():
         # everything the library has to say
         logging.getLogger('pydiffx').setLevel(logging.DEBUG)
     else:
-        logging.getLogger('pydiffx').setLevel(logging.CRITICAL)
+        # the level an application that never touched logging has: what
+        # the library does for a warning is done, nothing is printed
+        logging.getLogger('pydiffx').setLevel(logging.WARNING)
 
     ns = _NS()
     ns.pydiffx = pydiffx
